@@ -603,7 +603,7 @@ theorem rejStr_ne_ok (e : Reject) : rejStr e ≠ "ok" := by cases e <;> decide
 
 theorem append_rejected (a : Appender) (st : Store) (n : String) (x : Sample)
     (h : (a.append st n x).2.2 ≠ "ok") : (a.append st n x).1 = a := by
-  unfold Appender.append at h ⊢
+  unfold Appender.append Appender.appendWith at h ⊢
   by_cases c : a.w.oooWin = 0 ∧ x.t < a.w.minValid
   · simp [c]
   · simp only [c, if_false] at h ⊢
@@ -635,7 +635,7 @@ theorem append_store_all (a : Appender) (st : Store) (n : String) (x : Sample) (
             · simp [e2] at hl
             · simpa [e2] using hl
       exact this st hf
-  unfold Appender.append
+  unfold Appender.append Appender.appendWith
   by_cases c : a.w.oooWin = 0 ∧ x.t < a.w.minValid
   · simp [c]
   · simp only [c, if_false]
@@ -664,9 +664,7 @@ theorem only_commit_stores_aux (s : State) (hc : s.cfg = true) (tk : List String
     · split
       · rfl
       · split <;> rfl
-    · split
-      · rfl
-      · split <;> rfl
+    · split <;> rfl
     · split
       · rfl
       · split
